@@ -10,6 +10,7 @@ import TonicModel.Lemmas.BalanceRun
 import TonicModel.Lemmas.BalanceDebt
 import TonicModel.Lemmas.BalanceWitness
 import TonicModel.Lemmas.BalanceSpecMain
+import TonicModel.Lemmas.BalanceAcct
 /-
 C14 — A channel always answers and recovers when the peer comes back.
 Property theorems only; helper lemmas live in `Lemmas/Reconnect.lean`.
@@ -560,6 +561,24 @@ theorem C14_balanced_single_endpoint_recovers (ops : List BalScript.BOp) (chs : 
   | lost k => rw [h] at hdebt; simp [Balance.BRes.errored] at hdebt; omega
   | hang => rw [h] at hdef; cases hdef
   | panic => rw [h] at hdef; cases hdef
+
+/-- Recovery, per endpoint — what "once the endpoint is reachable again the next call succeeds"
+comes to on a balanced channel when only SOME endpoint is reachable. Take any state a script can
+lead to in which endpoint `k`'s server listens, and let nothing but calls happen. Whatever the
+other endpoints do (down for good, or not) and whatever the balancer draws: at most ONE further
+call gets an error that came from `k` (the stale failure `k` may still hold from the time it was
+down); every other call the balancer gives to `k` is served. So a call succeeds as soon as the
+balancer draws `k` for the second time — how soon that is, is the balancer's coin
+(`C14_balanced_recovers_one_reachable_fails`). -/
+theorem C14_balanced_endpoint_recovers (ops : List BalScript.BOp) (chs more : List Balance.Choice) (k : Nat) :
+    let s := Balance.exec (Balance.B.init true) ops chs
+    (∀ e ∈ s.eps, e.key = k → e.member = true → e.w.up = true) →
+      ((Balance.calls s more).filter (Balance.BRes.errorOf k)).length ≤ 1 := by
+  intro s hup
+  have hg := Balance.exec_gd ops (Balance.B.init true) chs (by intro e he; cases he)
+  have hn := Balance.exec_keys_nodup ops (Balance.B.init true) chs (by simp [Balance.B.init])
+  exact Nat.le_trans (Balance.calls_errors_of k more s (fun e he => ⟨hup e he, hg e he⟩))
+    (Balance.potK_total_le_one k s.eps hn)
 
 /-- What does NOT hold, and why the bound above asks for every endpoint to be reachable: with only
 SOME endpoint reachable there is no number of calls after which one must succeed. Three endpoints,
